@@ -304,25 +304,29 @@ func VP_C18_sqs_xattr_find() {
 	}
 }
 
-// VP_C18_sqs_read_metadata: readMetadata over an arbitrary 64-byte table of uncompressed blocks.
+// VP_C18_sqs_read_metadata: readMetadata over an arbitrary table of uncompressed blocks (quick: 24
+// bytes from table offset 0; thorough: 64 bytes from an arbitrary table start).
 func VP_C18_sqs_read_metadata() {
-	const size = 64
+	size := int64(vp.Bound("metatable", 24, 64))
 	dev := vpdev.NewMemDev("img", size)
 	dev.UF, dev.NoWrites = true, true
 	// no compressor: blocks whose header says "compressed" are refused by readMetaBlock
 	fs := &FileSystem{backend: dev, blocksize: 4096}
-	first := vp.I64("first")
-	vp.Assume(first >= 0)
-	vp.Assume(first <= size)
+	first := int64(0)
+	if vp.Thorough() {
+		first = vp.I64("first")
+		vp.Assume(first >= 0)
+		vp.Assume(first <= size)
+	}
 	bo := vp.U32("blockOffset")
-	vp.Assume(bo <= size)
+	vp.Assume(int64(bo) <= size)
 	off := vp.U16("byteOffset")
 	want := vp.Int("size")
 	vp.Assume(want >= 0)
-	vp.Assume(want <= 48)
-	vp.Unwind(40)
-	vp.MaxLoop(34) // every iteration consumes at least a 2-byte header of a 64-byte image
-	vp.AllocCap(70)
+	vp.Assume(want <= vp.Bound("metawant", 12, 48))
+	vp.Unwind(int(size)/2 + 4)
+	vp.MaxLoop(int(size)/2 + 2) // every iteration consumes at least the 2-byte header of a block
+	vp.AllocCap(int(size) + 6)
 	vp.AllocLimit(uint64(2*size + c18Slack))
 	// KF-C18-33: byte offset (from an inode reference / directory entry) beyond the metadata block
 	vp.KnownPanic("KF-C18-33", "squashfs.FileSystem).readMetadata)")
@@ -437,6 +441,13 @@ func c18SqsRead(blocksize uint32, blocklog uint16, frags bool) {
 		// one index block of ids (more blocks only repeat the same reader loop)
 		vp.Assume(binary.LittleEndian.Uint16(sb[26:]) <= 2048)
 	}
+	if !vp.Thorough() {
+		// quick tier: the root inode lies in the first metadata block of an inode table that starts
+		// right behind the superblock (its byte offset stays arbitrary): the block cache is a map keyed
+		// by block position, and arbitrary positions make the engine fork per cached block
+		binary.LittleEndian.PutUint64(sb[64:], 96)
+		sb[34], sb[35], sb[36], sb[37] = 0, 0, 0, 0
+	}
 	dev.sb = sb
 	limit := uint64(2*size + c18Slack)
 	vp.Unwind(40)
@@ -461,6 +472,19 @@ func c18SqsRead(blocksize uint32, blocklog uint16, frags bool) {
 	}
 }
 
-func VP_C18_sqs_read_ids()   { c18SqsRead(4096, 12, false) }
-func VP_C18_sqs_read_frags() { c18SqsRead(4096, 12, true) }
-func VP_C18_sqs_read_bs0()   { c18SqsRead(0, 0, false) }
+// the two full variants take minutes (every inode type, metadata block loops): thorough tier only
+func VP_C18_sqs_read_ids() {
+	if vp.Thorough() {
+		c18SqsRead(4096, 12, false)
+	} else {
+		vp.Cover("thorough tier only")
+	}
+}
+func VP_C18_sqs_read_frags() {
+	if vp.Thorough() {
+		c18SqsRead(4096, 12, true)
+	} else {
+		vp.Cover("thorough tier only")
+	}
+}
+func VP_C18_sqs_read_bs0() { c18SqsRead(0, 0, false) }
